@@ -110,7 +110,7 @@ def run(ck: Checker):
     nb = num_folds.fold_multipliers(ck, 'C08.NUM')
     num_folds.fold_squarers(ck, 'C08.NUM', nb)
     ck.floor('C08.NUM', 9)
-    ck.assume('NOT DECIDED: that the bits returned by the while-loop / recursive multipliers (default, Karatsuba, Dadda, Wallace, 2^k-1) and the squarers decode to a*b / a^2, and the Karatsuba thresholds')
+    ck.assume('NOT DECIDED: products and squares at widths other than the instantiated ones, and at the sampled widths for operand values outside the sample')
     ck.assume('summation / subtraction gadgets reused by the multipliers are decided under C07.GADGET and C09.GADGET')
 
 
